@@ -48,7 +48,7 @@ CHECKS = {
         design_ref="DESIGN.md §3 C18", engine="inproc"),
     "C16": dict(
         technique="bounded exhaustive enumeration of comma-separated expression lists (66 expression forms closed one level under 8 contexts; lists up to length 2 with every alias subset and trailing comma, length 3 in thorough) run through the real argument splitter in-process and through real Display expansions (sentinel/alias probes, verbatim re-emission), compared with syn's full Expr parser, which is itself bound to rustc's `$e:expr` parser on every alias-free list",
-        text="Every list in the bounded space is split by the real code and by the reference grammar; disagreement in count, tokens, identifier classification, positional indices seen by the derive, alias recognition or verbatim re-emission is a violation. Two root-cause classes are recorded as known findings with predicates decided on the reference parse only.",
+        text="Every list in the bounded space is split by the real code and by the reference grammar; disagreement in count, tokens, identifier classification, positional indices seen by the derive, alias recognition or verbatim re-emission is a violation. Two root-cause classes of the approximate splitter (both repaired in /repo, `fixed` in known_findings.json) are still told apart by predicates decided on the reference parse only, so a reappearance is named; families of long flat arguments among tricky neighbours guard the length heuristics that choose between the two splitters.",
         note="Trusted: syn::Expr(full) as the expression grammar, cross-checked against rustc for all alias-free lists of the quick space; the class predicates for the two known findings. Expressions outside the alphabet are not explored.",
         design_ref="DESIGN.md §3 C16", engine="inproc+compile"),
     "C19": dict(
